@@ -17,6 +17,10 @@
    The declarative side (Expected) is the reading of C01: head, head-1, ... down to but excluding
    the stop point, cut off at the applicable depth limit.  Invariant Done compares everything the
    property talks about; the same run exports every configuration with its expected observations. *)
+(* Two variants of every fourth configuration are run by the harness besides the plain one: the same call made once before
+   against a publisher that fails the second block request (what that attempt stored is "held locally" for the sync proper:
+   the reported blocks, the head, latest-synced and the notification are the same, and nothing else is requested), and a block
+   hook that cancels the caller's context at the second block (the sync fails, or it is the whole sync).                  *)
 EXTENDS Integers, Sequences, SequencesExt, FiniteSets, TLC, VerifIO
 
 CONSTANTS MaxLen,        \* chain lengths 1..MaxLen
